@@ -1258,6 +1258,14 @@ def resolve_terms(prog, t, depth=3, _memo=None, assumptions=()):
                         caps = {n: v for _, n, v in clo_[2]}
                         c2 = Ctx(prog.body(clo_[1]), params={2: ok_payload(src_[2][0])}, captures=caps, assumptions=assumptions).settle()
                         out = ("call", "vec!", (rec(c2.T.return_term(), depth - 1),))
+            if out is None and assumptions and t[1] == "std::option::Option::map_or" and len(args) == 3:
+                a = assumed_ok(assumptions, args[0])
+                if a is False:
+                    out = args[1]
+                elif a is True and args[2][0] == "closure" and prog.body(args[2][1]) is not None:
+                    caps = {n: v for _, n, v in args[2][2]}
+                    c2 = Ctx(prog.body(args[2][1]), params={2: ok_payload(args[0])}, captures=caps, assumptions=assumptions).settle()
+                    out = rec(c2.T.return_term(), depth - 1)
             if out is None and assumptions and t[1] == "std::option::Option::map" and len(args) == 2:
                 # Option::map of a value whose variant the world fixes
                 a = assumed_ok(assumptions, args[0])
